@@ -332,15 +332,19 @@ def selected_keys(keys, fields, exclude):
 
 
 def expected_csv_rows(obss, o):
-    rows, prev = [], None
+    """per maximal run of records with equal descriptors: the header row of the selected names, then one row per
+    record with the text of each selected value under its header cell"""
+    rows, prev, header = [], None, None
     for obs in obss:
         items = {it[0]: it for it in flat_items(obs)}
         sel = selected_keys(list(items), o.get("fields"), o.get("exclude"))
         dk = desc_key(obs)
         if prev is None or dk != prev:
-            rows.append(list(sel))
+            header = list(sel)
+            rows.append(header)
         prev = dk
-        rows.append(["" if items[k][2] is None else items[k][2] for k in sel])
+        order = header if sorted(header) == sorted(sel) else sel
+        rows.append(["" if items[k][2] is None else items[k][2] for k in order])
     return rows
 
 
@@ -646,7 +650,7 @@ def classify_texts(texts):
     return None
 
 
-def run_sequence(ctx, rep, rnd, idx, script, workdir, cfgname="gen_cfg", collect=None):
+def run_sequence(ctx, rep, rnd, idx, script, workdir, cfgname="gen_cfg", collect=None, origin="hostile"):
     """Runs every writer on the write script (records and Twin markers) with drawn options; python-level property
     checks report through `rep`; returns the Gallina boolean terms (sub-checks) of this sequence."""
     recs = [x for x in script if not isinstance(x, Twin)]
@@ -660,7 +664,7 @@ def run_sequence(ctx, rep, rnd, idx, script, workdir, cfgname="gen_cfg", collect
             return []       # the writer coped; nothing to compare against
         rep.fail(cls, "writers fail on a valid record: field %s of type %s holding %s cannot be printed (%s); "
                       "LineWriter raised %s" % (e.key, e.tname, e.value_desc, e.exc, err),
-                 dict(kind="text-form", type=e.tname, value=e.value_desc, error=err))
+                 dict(kind="text-form", seq=idx, origin=origin, type=e.tname, value=e.value_desc, error=err))
         ctx.count_case(("textform", e.tname, e.value_desc))
         return []
     # GroupedRecord keeps its own attributes (name, records, ...) in the instance dict: a member field of that
@@ -674,7 +678,7 @@ def run_sequence(ctx, rep, rnd, idx, script, workdir, cfgname="gen_cfg", collect
             if bad:
                 rep.fail(dict(cls="grouped-attr-shadow"),
                          "GroupedRecord._asdict() returns the group's own attribute %r instead of the member field %r = %r" % (
-                             got.get(bad[0]), bad[0], d[bad[0]][2]), dict(kind="grouped-shadow", field=bad[0], records=[repr(x) for x in obss]))
+                             got.get(bad[0]), bad[0], d[bad[0]][2]), dict(kind="grouped-shadow", seq=idx, origin=origin, field=bad[0], records=[repr(x) for x in obss]))
                 ctx.count_case(("grouped-shadow", bad[0], repr(obs)))
                 return []
     recs_term = clist(c_rec(o) for o in obss)
@@ -699,7 +703,7 @@ def run_sequence(ctx, rep, rnd, idx, script, workdir, cfgname="gen_cfg", collect
         path = os.path.join(workdir, "s%d_%d.csv" % (idx, variant))
         data, err, ename = run_writer("csvfile", path, script, o, via_kwargs=rnd.random() < 0.3)
         texts = sel_texts(o)
-        meta = dict(kind="csv", seq=idx, opts=o, records=script_repr)
+        meta = dict(kind="csv", seq=idx, origin=origin, opts=o, records=script_repr)
         pyrows = None
         if data is None:
             tcls = classify_texts(texts)
@@ -732,7 +736,7 @@ def run_sequence(ctx, rep, rnd, idx, script, workdir, cfgname="gen_cfg", collect
         path = os.path.join(workdir, "s%d_%d.line" % (idx, variant))
         data, err, ename = run_writer("line", path, script, o, via_kwargs=rnd.random() < 0.3)
         texts = sel_texts(o)
-        meta = dict(kind="line", seq=idx, opts=o, records=script_repr)
+        meta = dict(kind="line", seq=idx, origin=origin, opts=o, records=script_repr)
         if data is None:
             tcls = classify_texts(texts)
             tcls = None if tcls == "escaped-byte-surrogate" else tcls
@@ -751,7 +755,7 @@ def run_sequence(ctx, rep, rnd, idx, script, workdir, cfgname="gen_cfg", collect
             o["format_spec"] = ""
         path = os.path.join(workdir, "s%d_%d.txt" % (idx, variant))
         data, err, ename = run_writer("text", path, script, o, via_kwargs=rnd.random() < 0.3)
-        meta = dict(kind="text", seq=idx, opts=o, records=script_repr)
+        meta = dict(kind="text", seq=idx, origin=origin, opts=o, records=script_repr)
         tpl = resolve_escapes(o["format_spec"]) if o.get("format_spec") else None
         ivs = [items_with_values(r) for r in recs]
         # what the property demands
@@ -1024,6 +1028,23 @@ Open Scope N_scope.
 """
 
 
+def gen_safe_sequence(rnd, idx):
+    """records of one descriptor with unambiguous text (also read back through CsvfileReader)"""
+    D = gen_descriptor(rnd, idx, types=["string", "varint", "uint16", "boolean", "net.ipaddress", "float", "wstring"])
+    if len(D.get_field_tuples()) == 0:
+        return []
+    recs = []
+    for _ in range(rnd.randint(2, 5)):
+        kw = {}
+        for tname, fname in D.get_field_tuples():
+            if tname in ("string", "wstring"):
+                kw[fname] = safe_word(rnd)
+            else:
+                kw[fname] = gen_value(rnd, tname, hostile=False)
+        recs.append(D.recordType(_generated=TS, _source=safe_word(rnd), _classification=safe_word(rnd), **kw))
+    return recs
+
+
 def seq_rnd(seed, idx):
     return random.Random(seed * 1000003 + idx)
 
@@ -1041,19 +1062,9 @@ def build_cases(ctx, rep, rnd, nseq, workdir, cfgname="gen_cfg"):
         collect = []
         for idx in range(nseq, nseq + max(4, nseq // 6)):
             rnd = seq_rnd(ctx.seed, idx)
-            D = gen_descriptor(rnd, idx, types=["string", "varint", "uint16", "boolean", "net.ipaddress", "float", "wstring"])
-            if len(D.get_field_tuples()) == 0:
-                continue
-            recs = []
-            for _ in range(rnd.randint(2, 5)):
-                kw = {}
-                for tname, fname in D.get_field_tuples():
-                    if tname in ("string", "wstring"):
-                        kw[fname] = safe_word(rnd)
-                    else:
-                        kw[fname] = gen_value(rnd, tname, hostile=False)
-                recs.append(D.recordType(_generated=TS, _source=safe_word(rnd), _classification=safe_word(rnd), **kw))
-            allterms += run_sequence(ctx, rep, rnd, idx, recs, workdir, cfgname, collect=collect)
+            recs = gen_safe_sequence(rnd, idx)
+            if recs:
+                allterms += run_sequence(ctx, rep, rnd, idx, recs, workdir, cfgname, collect=collect, origin="safe")
         for recs, obss, o, data in collect:
             if (o.get("lineterminator") in (None, "\\r\\n", "\r\n", "\\n", "\n")):
                 written_safe.append(data)
@@ -1152,6 +1163,13 @@ def search(ctx, reason):
     except Exception as e:  # noqa
         ctx.notes.append("search failed: %r" % (e,))
         return rep.reported
+    if not rep.reported:
+        try:        # python-level oracles of normalize_fieldname / CsvfileReader (no Coq needed)
+            rnd = random.Random(ctx.seed)
+            normalize_cases(ctx, rep, rnd, 200)
+            read_cases(ctx, rep, rnd, 24, _workdir(ctx), [])
+        except Exception as e:  # noqa
+            ctx.notes.append("search (reader part) failed: %r" % (e,))
     if rep.reported:
         return True
     if b["ok"] and not err and failing:
@@ -1181,6 +1199,8 @@ def run(ctx):
         "csv.Sniffer is an oracle: read-back cases use the delimiter it reports and are counted only when it reports the "
         "delimiter the file was written with",
         "str.isdecimal is the generated table of this interpreter's Unicode database",
+        "C20_csv_layout assumes keys_agree: records with equal descriptors have the same selected field names (the slots "
+        "of a record class are a function of its descriptor); the model itself (csvw_run) does not assume it",
         "a str holding a surrogate outside U+DC80..U+DCFF is not encodable by any handler the writers use; listed as a known finding",
     ]
     if not ok:
@@ -1193,6 +1213,13 @@ def run(ctx):
             ctx.coverage["trusted_base"].append("Print Assumptions %s: %s" % (t, pa.get(t, "?")))
     else:
         ctx.notes.append("props/C20_findings.v no longer checks (%s): the CSV strict-encoder finding does not reproduce at model level" % fb["failed"])
+    if ctx.tier == "thorough":
+        rc, out = core.sh(["coqchk", "-silent", "-o", "-R", str(core.COQ), "FR", "props/C20.vo"], cwd=str(core.COQ), timeout=900)
+        summary = " ".join(out.split())[-400:]
+        ctx.coverage["trusted_base"].append("coqchk -o props/C20.vo (independent checker): rc=%d %s" % (rc, summary))
+        if rc != 0:
+            ctx.violation("coqchk rejects props/C20.vo", dict(kind="coqchk", log=out[-3000:]), no_input=True)
+            return
     with warnings.catch_warnings():
         warnings.simplefilter("ignore")
         replay_witnesses(ctx, kf, _workdir(ctx))
@@ -1202,6 +1229,18 @@ def run(ctx):
         ctx.violation("correspondence shards did not evaluate: " + err[:300], dict(kind="coq-eval", log=err), no_input=True)
         return
     ctx.coverage["traces_validated_against_impl"] = len(terms) - len(failing)
+    dist = {}
+    for m in metas:
+        k = m.get("what") or m.get("kind")
+        dist[k] = dist.get(k, 0) + 1
+    ctx.coverage["input_distribution"] = dict(
+        cases_by_kind=dist,
+        records_with_options=dict(
+            fields=sum(1 for m in metas if (m.get("opts") or {}).get("fields")),
+            exclude=sum(1 for m in metas if (m.get("opts") or {}).get("exclude")),
+            lineterminator_lf=sum(1 for m in metas if (m.get("opts") or {}).get("lineterminator") in ("\\n", "\n")),
+            verbose=sum(1 for m in metas if (m.get("opts") or {}).get("verbose")),
+            format_spec=sum(1 for m in metas if (m.get("opts") or {}).get("format_spec"))))
     if failing and not rep.reported:
         m = metas[failing[0]]
         ctx.violation("model/Csv.v and the implementation disagree on %d of %d cases, first: %s with options %r; the python "
@@ -1212,7 +1251,70 @@ def run(ctx):
         ctx.sample(summarize({k: v for k, v in m.items() if k in ("kind", "what", "opts", "records", "name", "out", "delimiter", "text", "rows")}))
 
 
+class _ReplayCtx:
+    """just enough of core.Ctx for re-running one case"""
+
+    def __init__(self, seed, work):
+        self.seed, self.tier, self.work = seed, "quick", work
+        self.failures, self.notes = [], []
+
+    def count_case(self, *a, **k):
+        pass
+
+    def known_finding(self, fid, what):
+        print("KNOWN-FINDING (replay): %s" % fid)
+
+    def violation(self, what, obj, no_input=False):
+        self.failures.append(what)
+        print("FAILS: " + what[:400])
+
+
 def replay(obj):
-    print("replay of kind %s: the failing input is in the replay file (records/opts/output); re-run ./check C20 with "
-          "VERIF_SEED=%s to regenerate it against the current tree" % (obj.get("kind"), obj.get("seed")))
-    return 2
+    """re-executes exactly the recorded case (same seed, same sequence index / name / file) on the current tree"""
+    import shutil
+    import tempfile
+    from pathlib import Path
+    core.WORK.mkdir(exist_ok=True)
+    work = Path(tempfile.mkdtemp(prefix="C20.replay.", dir=str(core.WORK)))
+    try:
+        rctx = _ReplayCtx(int(obj.get("seed", 0)), work)
+        rep = Report(rctx, core.known_for(PID))
+        kind = obj.get("kind")
+        with warnings.catch_warnings():
+            warnings.simplefilter("ignore")
+            if kind in ("csv", "line", "text", "text-form", "grouped-shadow") and "seq" in obj:
+                idx = int(obj["seq"])
+                rnd = seq_rnd(rctx.seed, idx)
+                script = gen_safe_sequence(rnd, idx) if obj.get("origin") == "safe" else gen_sequence(rnd, idx, hostile=True)
+                out = str(work / "out")
+                os.makedirs(out, exist_ok=True)
+                run_sequence(rctx, rep, rnd, idx, script, out)
+            elif kind == "normalize":
+                from flow.record.base import RE_VALID_FIELD_NAME, normalize_fieldname
+                nm = obj["name"]
+                out = normalize_fieldname(nm)
+                simple = all(c in _string.ascii_letters + _string.digits + "_-() " for c in nm)
+                print("normalize_fieldname(%r) = %r" % (nm, out))
+                if normalize_fieldname(out) != out or (simple and nm not in RESERVED and not RE_VALID_FIELD_NAME.match(out)):
+                    rctx.failures.append("normalize")
+            elif kind == "read":
+                from flow.record import RecordReader
+                path = str(work / "r.csv")
+                with open(path, "w", newline="", encoding="utf-8") as f:
+                    f.write(obj["text"])
+                kw = {"fields": obj["fields"]} if obj.get("fields") is not None else {}
+                try:
+                    with RecordReader("csvfile://" + path, **kw) as rd:
+                        got = [[getattr(r, k) for k in r._desc.fields] for r in rd]
+                except Exception as e:  # noqa
+                    got = "%s: %s" % (type(e).__name__, e)
+                print("CsvfileReader -> %r ; expected %r" % (got, obj.get("want")))
+                if got != obj.get("want"):
+                    rctx.failures.append("read")
+            else:
+                print("replay of kind %s: nothing to re-execute (re-run ./check C20)" % kind)
+                return 2
+        print("replay: the case %s" % ("still fails" if rctx.failures else "passes on the current tree"))
+        return 1 if rctx.failures else 0
+    finally:
+        shutil.rmtree(work, ignore_errors=True)
